@@ -50,6 +50,10 @@ def gen_pole(rng, w0max, force=None):
             return {"kind": kind, "wp": [H(rng.choice([0.0, rng.uniform(0.1, 2) * w0max])) for _ in range(3)], "g": [H(rng.uniform(0, 1) * w0) for _ in range(3)]}
         return {"kind": kind, "wp": H(rng.uniform(0.1, 2.0) * w0max), "g": H(g)}
     if kind == "ccpr":
+        if rng.random() < 0.4:    # per-axis (q, r) sets with different damping per axis
+            ws = [rng.uniform(0.05, 1.0) * w0max for _ in range(3)]
+            return {"kind": kind, "q": [[H(-rng.uniform(1e-3, 0.5) * w_), H(-w_)] for w_ in ws],
+                    "r": [[H(rng.uniform(-1, 1) * w_), H(rng.uniform(-2, 2) * w_)] for w_ in ws]}
         return {"kind": kind, "q": [H(-rng.uniform(1e-3, 0.5) * w0), H(-w0)], "r": [H(rng.uniform(-1, 1) * w0), H(rng.uniform(-2, 2) * w0)]}
     return {"kind": "cp", "amp": H(rng.uniform(0.2, 3)), "phase": H(rng.uniform(-1.5, 1.5)), "om": H(w0), "gm": H(rng.uniform(1e-3, 0.5) * w0)}
 
